@@ -193,7 +193,19 @@ func genDupCase(t *rapid.T, st *Stats) (*dupCase, string) {
 	cfg.MinBlocks, cfg.MaxBlocks, cfg.PDup, cfg.PGarbage, cfg.PSPR = 6, 12, 0, 0, 15
 	k := rapid.IntRange(5, 9).Draw(t, "startK")
 	era := ModernEra(uint32(144*k + rapid.IntRange(0, 143).Draw(t, "startOff")))
+	if rapid.IntRange(0, 3).Draw(t, "legacyEra") == 0 {
+		// legacy PEG-bank era: conversions into PEG are allowed and paid through the bank
+		era = LegacyBankEra(uint32(144*k+rapid.IntRange(1, 100).Draw(t, "lstartOff")), uint32(rapid.IntRange(3, 9).Draw(t, "v4off")))
+	}
 	w := NewWorld(t, era, 30)
+	if era.V20 == Never {
+		// fund by burns: pFCT for everybody
+		b := &Block{OPR: w.OPRSet(OPRSetOpts{N: 26, Miners: w.Actors[:26]})}
+		for i := 0; i < 12; i++ {
+			b.Fct = append(b.Fct, BurnTx(w.H(), w.Actors[i], uint64(100+i)*1e8, uint64(i)))
+		}
+		w.Commit(b)
+	}
 	n := rapid.IntRange(cfg.MinBlocks, cfg.MaxBlocks).Draw(t, "nblocks")
 	at := rapid.IntRange(2, n-3).Draw(t, "entryBlock")
 	var c dupCase
@@ -228,7 +240,7 @@ func genDupCase(t *rapid.T, st *Stats) (*dupCase, string) {
 				c.Entry = w.Conversion(hd.A, hd.T, hd.V/2+1, dst)
 			default:
 				kind = "conversion-rejected"
-				c.Entry = w.Conversion(hd.A, hd.T, hd.V/2+1, TPEG+0*w.Dest(hd.T, "x")) // into PEG: forbidden from 2.0
+				c.Entry = w.Conversion(hd.A, hd.T, hd.V/2+1, TPEG+0*w.Dest(hd.T, "x")) // into PEG: forbidden from 2.0 (a bank request in the legacy era)
 				if hd.T == TPEG {
 					c.Entry = w.Conversion(hd.A, hd.T, hd.V+5, TUSD) // insufficient funds at execution
 				}
